@@ -19,6 +19,9 @@ EXPLANATION = (
     "R3 interval naming -- components[accessible_pos[pos]] = accessible_pos[cuts[i]] for pos in range(cuts[i], cuts[i+1]) with cuts extended by the number of variants: phase sets are consecutive intervals named by their first variant; "
     "R4 pass-through -- the writer rules of C04 (conservation, store/sample confinement, header) hold for the shared PhasedVcfWriter and polyphase's chromosome loop; R5 -- block results are aggregated in block order for any thread count (C16.R2)."
 )
+EXPLANATION += (
+    " " + 'R6: permute_blocks permutes threads / haplotypes in place only from snapshots whose copy depth (deepcopy, or nested element copies) reaches the written subscript level, and integrate_sub_results writes res.haplotypes[j][i] back to haplotypes[thread_set[j]][snps[i]] for every pair unconditionally.'
+)
 NOT_DECIDED = "That threading / reordering permutations preserve allele multisets (perms are runtime values) and that cut positions are monotone."
 ASSUMPTIONS = ["compute_cut_positions returns ascending cut indices starting with 0 (asserted in the code, value-level)"]
 
@@ -202,11 +205,72 @@ def r5(ctx):
     c16.r2(ctx)
 
 
+def r6(ctx):
+    """Reordering stage: haplotype alleles are moved between haplotypes, never duplicated or dropped."""
+    RO = "whatshap.polyphase.reorder"
+    pb = ctx.func(RO + ".permute_blocks")
+    n = 0
+    for st in util.store_sites(pb.node):
+        if st.kind != "subscript" or st.value is None or not isinstance(st.value, ast.Subscript):
+            continue
+        tgt_root = util.root_name(st.target)
+        src_root = util.root_name(st.value)
+        if tgt_root not in util.params_of(pb.node) or src_root == tgt_root:
+            if src_root == tgt_root and tgt_root in util.params_of(pb.node):
+                n += 1
+                ctx.ob(pb.qual, "permutation-reads-a-snapshot:%s" % tgt_root, False, pb.loc(st.stmt), "`%s` permutes %s in place while reading from %s itself: entries already overwritten are read again (an allele is duplicated, another lost)" % (st.text()[:70], tgt_root, tgt_root))
+            continue
+        d = util.single_def(pb.node, src_root)
+        depth = util.copy_depth(d, tgt_root) if d is not None else None
+        if depth is None:
+            continue  # source is unrelated to the target
+        need = util.subscript_depth(st.target)
+        n += 1
+        ok = depth >= need
+        ctx.ob(pb.qual, "permutation-reads-a-snapshot:%s" % tgt_root, ok, pb.loc(st.stmt), "%s is permuted in place from %s = %s, a copy that shares no storage with it down to the written level (%d)" % (tgt_root, src_root, u(d)[:40], need) if ok else "%s = %s copies only %d level(s) of %s, but `%s` writes at level %d: the inner lists are shared, so the permutation reads entries it has already overwritten (alleles duplicated / lost within a block)" % (src_root, u(d)[:40], depth, tgt_root, st.text()[:60], need))
+    ctx.require(n >= 2, "in-place permutation stores (threads, haplotypes) not found in permute_blocks")
+    isr = ctx.func(RO + ".integrate_sub_results")
+    icfg = ctx.cfg(isr)
+    wb = [st for st in util.store_sites(isr.node) if st.kind == "subscript" and util.root_name(st.target) == "haplotypes" and util.subscript_depth(st.target) == 2]
+    ctx.require(len(wb) == 1, "write-back haplotypes[hap][pos] = ... not found in integrate_sub_results")
+    st = wb[0]
+    # conditions between the head of the enclosing loop nest and the store (asserts before the nest do not count)
+    tests = []
+    anc = st.stmt.parent
+    while anc is not None and anc is not isr.node:
+        if isinstance(anc, (ast.If, ast.While, ast.Try, ast.With)):
+            tests.append((type(anc).__name__.lower() + " " + u(getattr(anc, "test", anc))[:60], True))
+        anc = getattr(anc, "parent", None)
+    hap, pos = u(st.target.value.slice), u(st.target.slice)
+    l_in = st.stmt.parent
+    while l_in is not None and not isinstance(l_in, ast.For):
+        l_in = getattr(l_in, "parent", None)
+    l_out = getattr(l_in, "parent", None)
+    while l_out is not None and not isinstance(l_out, ast.For):
+        l_out = getattr(l_out, "parent", None)
+    # an early `continue`/`break` inside the nest also makes the store conditional
+    for lp_ in (l_in, l_out):
+        if lp_ is not None:
+            for x in ast.walk(lp_):
+                if isinstance(x, (ast.Continue, ast.Break)) and (x.lineno, x.col_offset) < (st.stmt.lineno, st.stmt.col_offset):
+                    tests.append(("%s at line %d" % (type(x).__name__.lower(), x.lineno), True))
+    shape = isinstance(l_in, ast.For) and isinstance(l_out, ast.For) and {u(l_in.iter), u(l_out.iter)} == {"enumerate(thread_set)", "enumerate(snps)"}
+    okv = False
+    if shape:
+        idx = {}
+        for lp_ in (l_in, l_out):
+            idx[u(lp_.target.elts[1])] = u(lp_.target.elts[0])
+        okv = hap in idx and pos in idx and u(st.value) == "res.haplotypes[%s][%s]" % (idx[hap], idx[pos])
+    ok = not tests and shape and okv
+    ctx.ob(isr.qual, "sub-result-written-back-for-every-haplotype-and-position", ok, isr.loc(st.stmt), "haplotypes[hap][pos] = res.haplotypes[j][i] for every (snp, thread) pair of the sub-instance, unconditionally" if ok else ("the write-back is conditional (%s): where it is skipped the collapsed-region allele stays, and the column no longer carries the genotype's alleles" % tests if tests else "the write-back does not copy res.haplotypes[j][i] to haplotypes[thread_set[j]][snps[i]] for all pairs"))
+
+
 RULES = [
     ("C15.R1", "only heterozygous, present genotypes reach the solver", r1),
     ("C15.R2", "genotype enforcement is reached; genotypes are the input's allele counts", r2),
     ("C15.R3", "phase sets are intervals named by their first variant", r3),
     ("C15.R4", "VCF pass-through: shared writer rules (C04.R1-R3, R5)", r4),
     ("C15.R5", "block results aggregated in block order for any thread count", r5),
+    ("C15.R6", "reordering permutes from a storage-disjoint snapshot; sub-results written back completely", r6),
 ]
-FLOORS = {"C15.R1": 6, "C15.R2": 9, "C15.R3": 6, "C15.R4": 38, "C15.R5": 5}
+FLOORS = {"C15.R1": 6, "C15.R2": 9, "C15.R3": 6, "C15.R4": 38, "C15.R5": 5, "C15.R6": 3}
